@@ -49,3 +49,13 @@ for _p, _qs in _LSB0_EXTRA.items():
                     touched = True
             if touched and _p not in c.props and all(s.opts.get('lsb0') for s in c.shapes):
                 c.props.add(_p)
+
+
+# arguments that may take huge values in the bounded stand-in (they do not size a buffer: the operation clamps or rejects them)
+_BIG = {'bits.Bits.__lshift__': {'n'}, 'bits.Bits.__rshift__': {'n'}, 'bitarray_.BitArray.__ilshift__': {'n'}, 'bitarray_.BitArray.__irshift__': {'n'},
+        'bitarray_.BitArray.ror': {'bits'}, 'bitarray_.BitArray.rol': {'bits'}, 'bitstream.ConstBitStream.read': {'n'}, 'bitstream.ConstBitStream.peek': {'n'},
+        'bits.Bits.__getitem__': {'start', 'stop', 'step', 'index'}, 'bitstream.ConstBitStream.__getitem__': {'start', 'stop', 'step', 'index'}}
+for _q, _names in _BIG.items():
+    if _q in REGISTRY:
+        for _sh in REGISTRY[_q].shapes:
+            _sh.big = set(_names)
